@@ -264,8 +264,14 @@ func finish(c *Ctx, spec *propSpec, verifDir string, seed int, wall float64, ext
 		funcs = append(funcs, f)
 	}
 	sort.Strings(funcs)
+	expl := spec.Explanation
+	if seenRule["codec-state-free"] {
+		expl += " Also decided (codec-state-free): no function of the codec package(s), nor any function they reach through statically resolved calls, reads or writes package-level state of the module that can change after initialisation " +
+			"(assigned or element-assigned outside init, atomics, mutexes, pointer-receiver mutators), so the result for one input cannot depend on what the process handled before; the exceptions are a reviewed table of sync.Pool free lists " +
+			"(for those of utils/sync every accessor resets the object on all paths before handing it out), the trace switches and the hash registry. Calls through interfaces and function values are not followed."
+	}
 	cov := map[string]any{
-		"explanation":         spec.Explanation,
+		"explanation":         expl,
 		"obligations":         len(c.Obs),
 		"discharged":          held,
 		"known_findings":      knownN,
